@@ -1,9 +1,9 @@
-\* C09 thorough: 2 values, views re-opened after a restart, 3 blocks
+\* C09 thorough: 3 substores, 2 simultaneously open views
 CONSTANTS
-  Stores = {"s1", "s2"}
-  NK = 2  NV = 2  NTK = 1  MaxVer = 3  MaxWrites = 1  MaxViews = 1
+  Stores = {"s1", "s2", "s3"}
+  NK = 1  NV = 1  NTK = 1  MaxVer = 3  MaxWrites = 1  MaxViews = 2
   IterBounds <- FullOnly
-  Features = {"views", "close"}
+  Features = {"views"}
   FirstBlockFixed = FALSE
   RecordHist = TRUE
 INIT Init
